@@ -81,11 +81,18 @@ def gen_cases(seed, tier, insts):
                 c.ops = list(std_ops)
                 if r > 0:
                     for k in range(r): c.ops.append(('stride', str(k)))
-                idx = all_indices(ext)
-                if len(idx) > 81: idx = rnd.sample(idx, 81)
-                else: c.idx_complete = True
+                if C.prod(ext) > 4096:      # large static extents: corners, unit vectors and a sample
+                    idx = [[0] * r, [e - 1 for e in ext]] + [[1 if k == j else 0 for k in range(r)] for j in range(r) if ext[j] > 1] + [[rnd.randrange(e) for e in ext] for _ in range(24)]
+                else:
+                    idx = all_indices(ext)
+                    if len(idx) > 81: idx = rnd.sample(idx, 81)
+                    else: c.idx_complete = True
                 for i in idx: c.ops.append(('off', C.fmt(i)))
                 cases.append(c)
+    # ---- default construction (one line per instantiation)
+    for inst in insts:
+        c = Case(inst, [p if p is not None else 0 for p in inst[2]], strides=[0] * len(inst[2]) if inst[0] == 'stride' else None, stream='default-ctor')
+        c.ops = [('dflt', None)]; cases.append(c)
     # ---- boundary lattice (admissible and beyond)
     dyn = {}
     for inst in insts:
